@@ -38,9 +38,22 @@ type dbScenario struct {
 	KeyDim  string `json:"keyDim"`
 	CoFault *Fault `json:"coFault,omitempty"` // a second query `SELECT * FROM t` coalesced with ours
 	CoDl    *int   `json:"coDeadline,omitempty"`
+	// S: the table has a third dimension s — the string "x<k>" in most rows, the NUMBER 7 in the
+	// rows of the keys listed in Odd (dimensions are untyped).  A query applying SUBSTR to s
+	// (WHERE / GROUP BY) panics inside goexpr on those rows, part-way through the scan.
+	S   bool  `json:"s,omitempty"`
+	Odd []int `json:"odd,omitempty"`
 }
 
 const dbStream = "inbound"
+
+func tableSQLs(alter, s bool) string {
+	q := tableSQL(alter)
+	if s {
+		q = strings.Replace(q, "GROUP BY k, g,", "GROUP BY k, g, s,", 1)
+	}
+	return q
+}
 
 func tableSQL(alter bool) string {
 	if alter {
@@ -56,6 +69,8 @@ type dbEnv struct {
 	db   *dbk.DB
 	n    int64
 	coal time.Duration
+	s    bool
+	odd  []int
 	sink struct {
 		mu      sync.Mutex
 		batches []int
@@ -85,7 +100,16 @@ func (e *dbEnv) wait(table string) bool {
 
 func (e *dbEnv) insert(r Row, div int, field string) error {
 	for i, v := range r.V {
-		if err := e.db.DB.Insert(dbStream, periodEnd(i), map[string]interface{}{"k": r.K, "g": r.K / div},
+		dims := map[string]interface{}{"k": r.K, "g": r.K / div}
+		if e.s {
+			dims["s"] = fmt.Sprintf("x%d", r.K)
+			for _, k := range e.odd {
+				if k == r.K {
+					dims["s"] = 7
+				}
+			}
+		}
+		if err := e.db.DB.Insert(dbStream, periodEnd(i), dims,
 			map[string]interface{}{field: float64(v)}); err != nil {
 			return err
 		}
@@ -111,8 +135,8 @@ func reopen(dir string, coal time.Duration, maxMemoryRatio float64) (*dbk.DB, er
 	return &dbk.DB{DB: zdb, Dir: dir}, nil
 }
 
-func createTable(db *zenodb.DB, alter bool) error {
-	if err := db.CreateTable(&zenodb.TableOpts{Name: "t", RetentionPeriod: time.Hour, SQL: tableSQL(alter),
+func createTable(db *zenodb.DB, alter bool, s ...bool) error {
+	if err := db.CreateTable(&zenodb.TableOpts{Name: "t", RetentionPeriod: time.Hour, SQL: tableSQLs(alter, len(s) > 0 && s[0]),
 		MinFlushLatency: 10000 * time.Hour, MaxFlushLatency: 20000 * time.Hour}); err != nil {
 		return err
 	}
@@ -132,7 +156,7 @@ func (rn *runner) buildDB(sc *dbScenario) (*dbEnv, error) {
 	if rn.dbs != nil {
 		rn.dbs.close()
 	}
-	e := &dbEnv{key: key, coal: time.Millisecond}
+	e := &dbEnv{key: key, coal: time.Millisecond, s: sc.S, odd: sc.Odd}
 	if sc.CoFault != nil {
 		e.coal = 60 * time.Millisecond
 	}
@@ -151,7 +175,7 @@ func (rn *runner) buildDB(sc *dbScenario) (*dbEnv, error) {
 		return nil, err
 	}
 	e.db = db
-	if err := createTable(db.DB, false); err != nil {
+	if err := createTable(db.DB, false, sc.S); err != nil {
 		return nil, err
 	}
 	for _, r := range sc.File {
@@ -525,12 +549,42 @@ func (rn *runner) genDB(r *hk.Rng) *Case {
 		sc.CoFault = &f
 	}
 
+	// panics in per-row processing: 0 none, 1 WHERE SUBSTR(s..), 2 GROUP BY SUBSTR(s..), 3 the caller's callback
+	pv := 0
+	if kind >= 16 {
+		pv = r.Range(1, 3)
+		if pv != 3 {
+			sc.S = true
+			sc.Odd = []int{}
+			for _, rw := range rows {
+				if r.Chance(1, 4) && len(sc.Odd) < 2 {
+					sc.Odd = append(sc.Odd, rw.K)
+				}
+			}
+		}
+	}
+
 	// the query
 	var plan map[string]interface{}
 	tbl := map[string]interface{}{"op": "table"} // filled below
 	plan = tbl
+	where := ""
+	if pv == 1 || pv == 2 {
+		// the WHERE clause / the GROUP BY expression is evaluated on every table row before
+		// anything else happens to it; it keeps every row it can be evaluated on
+		plan = map[string]interface{}{"op": "filter", "mod": 0, "rem": 0, "errKey": nil, "panicKeys": sc.Odd, "p": plan}
+	}
+	if pv == 1 {
+		where = " WHERE SUBSTR(s, 0, 1) = 'x'"
+	}
 	sel, groupBy := "*", ""
 	qk := r.Intn(3)
+	if pv == 2 {
+		qk = 1
+	}
+	if pv == 3 {
+		qk = 0
+	}
 	if sc.Alter {
 		qk = 1
 	}
@@ -550,6 +604,9 @@ func (rn *runner) genDB(r *hk.Rng) *Case {
 	if sc.Alter {
 		sel = "b"
 	}
+	if pv == 2 {
+		groupBy = " GROUP BY k, SUBSTR(s, 0, 1) AS p"
+	}
 	plan = map[string]interface{}{"op": "flatten", "p": plan}
 	if qk != 0 && !sc.Alter && r.Chance(1, 4) {
 		x := r.Range(1, 4)
@@ -557,7 +614,7 @@ func (rn *runner) genDB(r *hk.Rng) *Case {
 		plan = map[string]interface{}{"op": "filter", "mod": 0, "rem": 0, "errKey": nil, "minVal": x, "p": plan}
 	}
 	order := ""
-	if r.Chance(1, 3) {
+	if pv != 3 && r.Chance(1, 3) {
 		desc := r.Bool()
 		d := ""
 		if desc {
@@ -578,7 +635,7 @@ func (rn *runner) genDB(r *hk.Rng) *Case {
 			plan = map[string]interface{}{"op": "limit", "n": n, "p": plan}
 		}
 	}
-	sc.SQL = "SELECT " + sel + " FROM t" + groupBy + having + order + limit
+	sc.SQL = "SELECT " + sel + " FROM t" + where + groupBy + having + order + limit
 
 	e, err := rn.buildDB(sc)
 	if err != nil {
@@ -638,6 +695,15 @@ func (rn *runner) genDB(r *hk.Rng) *Case {
 	}
 	if sc.Big > 0 {
 		c.Fault, c.Deadline, c.Now = Fault{Kind: "none"}, nil, 0
+	}
+	if pv == 3 {
+		c.Fault = Fault{Kind: "panicAt", K: r.Intn(len(c.Expect) + 2)}
+		if c.Deadline != nil && *c.Deadline >= c.Now {
+			c.Deadline = nil
+		}
+	}
+	if pv != 0 {
+		rn.ctx.Res.Hit(fmt.Sprintf("db:panic:%s:odd-rows=%d", []string{"", "where-substr", "group-by-substr", "consumer"}[pv], len(sc.Odd)))
 	}
 	rn.ctx.Res.Hit(fmt.Sprintf("db:query-kind:%d", qk))
 	if sc.Alter {
